@@ -256,6 +256,14 @@ class Ctx:
 
                 return Slice(op[1], op[2]).apply(rel, **flags)
             return rel[op[1] : op[2]]
+        if k == "rawslice":
+            if flags:
+                from lsst.daf.relation import Slice
+
+                return Slice(op[1] if op[1] is not None else 0, op[2]).apply(rel, **flags)
+            return rel[slice(op[1], op[2], op[3])]
+        if k == "index":
+            return rel[op[1]]
         if k == "chain":
             return rel.chain(self.operand(rel, op[1]))
         if k == "join":
